@@ -149,3 +149,34 @@ pub fn events(ratios: &[&str]) -> Alphabet {
     evs.push(dividend(off(b, 4), "X", "3", "0"));
     Alphabet::new("events", evs, Rules::STRICT)
 }
+
+/// `two-sec` without CAPRETURN/ACCUMULATION (C12 excludes them).
+pub fn two_sec_plain() -> Alphabet {
+    let a = two_sec();
+    let evs: Vec<Transaction> = a.evs.into_iter().filter(|t| class_of(t) != Class::Adj).collect();
+    Alphabet::new("two-sec-plain", evs, Rules::STRICT)
+}
+
+/// `events-fx`: the `events` shape with USD/EUR amounts (price and fees in different currencies on one line).
+pub fn events_fx() -> Alphabet {
+    let b = base();
+    let mut evs = vec![];
+    for (i, o) in [-40i64, -20, 0, 5, 45].iter().enumerate() {
+        let d = off(b, *o);
+        evs.push(buy(d, "X", "10", &format!("{} USD", 10 + i), "1 EUR"));
+        evs.push(buy(d, "X", "10", &format!("{}", 9 + i), "1.5 USD"));
+        evs.push(sell(d, "X", "4", &format!("{} EUR", 20 + i), "0.5"));
+        evs.push(sell(d, "X", "10", &format!("{} USD", 21 + i), "1 USD"));
+    }
+    for o in [-30i64, 3, 20] {
+        let d = off(b, o);
+        evs.push(capret(d, "X", "10", "5 USD", "1 EUR"));
+        evs.push(accum(d, "X", "10", "7 EUR", "0"));
+    }
+    for o in [-25i64, 2] {
+        evs.push(split(off(b, o), "X", "2"));
+    }
+    let mut rules = Rules::STRICT;
+    rules.one_buy = false;
+    Alphabet::new("events-fx", evs, rules)
+}
